@@ -87,7 +87,7 @@ const FAMILIES: [&str; 7] = [
 
 fn crafted_previous(rng: &mut Rng, family: usize, n: usize) -> Vec<Hash> {
     let mut out: Vec<[u8; 32]> = Vec::new();
-    let mut push = |out: &mut Vec<[u8; 32]>, h: [u8; 32]| {
+    let push = |out: &mut Vec<[u8; 32]>, h: [u8; 32]| {
         if !out.contains(&h) {
             out.push(h);
         }
